@@ -63,6 +63,69 @@ def base_programs():
     return P
 
 
+WILD = """stage A(
+    in  int x,
+    in  int k,
+    out int y,
+    out int z,
+    src comp "s A",
+)
+
+stage B(
+    in  int y,
+    in  int z,
+    out int w,
+    src comp "s B",
+)
+
+pipeline SUB(
+    in  int x,
+    in  int k,
+    out int y,
+    out int z,
+)
+{
+    call A(
+        * = self,
+    )
+
+    return (
+        * = A,
+    )
+}
+
+pipeline TOP(
+    in  int x,
+    in  int k,
+    out int w,
+    out int y,
+)
+{
+    call SUB(
+        * = self,
+    )
+
+    call B(
+        * = SUB,
+    )
+
+    return (
+        w = B.w,
+        y = SUB.y,
+    )
+}
+
+call TOP(
+    x = 1,
+    k = 2,
+)
+"""
+
+# programs given as MRO text (constructs the renderer does not produce: wildcard bindings);
+# (name, source, {(stage, output): constant the stage returns})
+SOURCES = [("ref_wild", WILD, {("A", "y"): 11, ("A", "z"): 12, ("B", "w"): 21})]
+
+
 def names(p):
     return [c["name"] for c in p["stages"] + p["pipelines"]]
 
